@@ -179,6 +179,16 @@ class C07(Property):
                         dd["plan"] = {"k": k, "off": off, "exc": exc}
                         kind = f"{d['api']}-{d['style']}-{'anim' if anim else 'still'}-{log[k]}-{exc}"
                         yield Case("", dd, kind, True)
+            # old API, real images: Ctrl-C arriving INSIDE a render — raised from Pillow's convert / resize / getdata /
+            # tobytes (the 1st, 2nd, 3rd such call of that render) — for every render of the draw
+            if d["api"] == "old":
+                renders = [k for k in range(nbody) if log[k] == "render"]
+                for k in (renders if big else renders[:2] + renders[-1:]):
+                    for nth in (1, 2, 3):
+                        dd = dict(d)
+                        dd["pil_fault"] = nth
+                        dd["plan"] = {"k": k, "off": 0, "exc": "kbd"}
+                        yield Case("", dd, f"old-{d['style']}-{'anim' if anim else 'still'}-pil-kbd", True)
             # a BUFFERING output stream (write() buffers, flush() delivers): Ctrl-C / an exception in the flush of a
             # later frame delivers any prefix of the frame — cut inside an APC/OSC or after colours. (No
             # `_clear_frame_` string here, so that the buffer is the frame alone and the fault is, seen from the
